@@ -16,7 +16,7 @@ use crate::oracle::vsign::*;
 use crate::props::c12::{expand, hop_for_c08, Block, Fault, HOp};
 use crate::repr::M;
 
-pub const RULE: &str = "scenarios = sign type (all 11) x flip style x address (boundary set and uniform) x prior state of the virtual sign, produced (a) by a directed prefix for each of the 13 protocol states with variants (another sign type configured before, a partial page buffered, an abandoned transfer, pages stored, reset pending) and (b) by 0..40 messages/transfers of random prior traffic from the C12 alphabet, optionally with a second sign on the bus; then configure or configure_if_needed (the latter only where its trust contract holds, otherwise configure is used and counted), then 1..3 rounds of send_pages with 0..4 pages of the sign's size (blank, full, random bits, random raw bytes including header and padding; arbitrary ids) interleaved with show_loaded_page / load_next_page calls, optionally shut_down and a second configuration as a different type with another send. Oracle after every call: result Ok (with the sign's flip style for send_pages), VirtualSign state / sign_type / pages exactly as the statement prescribes (pages compared byte for byte, in order). Non-trivial = a prior state other than a fresh sign, or >= 2 pages, or a repeated send; distinct by hash of the scenario";
+pub const RULE: &str = "scenarios = sign type (all 11) x flip style x address (boundary set and uniform) x prior state of the virtual sign, produced (a) by a directed prefix for each of the 13 protocol states with variants (another sign type configured before, a partial page buffered, an abandoned transfer, pages stored, reset pending) and (b) by 0..40 messages/transfers of random prior traffic from the C12 alphabet, optionally with a second sign on the bus (half of the time driven by its own controller between the rounds, both signs then have to hold exactly their own pages); then configure or configure_if_needed (the latter only where its trust contract holds, otherwise configure is used and counted), then 1..3 rounds of send_pages with 0..4 pages of the sign's size (blank, full, random bits, random raw bytes including header and padding; arbitrary ids) interleaved with show_loaded_page / load_next_page calls, optionally shut_down and a second configuration as a different type with another send. Oracle after every call: result Ok (with the sign's flip style for send_pages), VirtualSign state / sign_type / pages exactly as the statement prescribes (pages compared byte for byte, in order). Non-trivial = a prior state other than a fresh sign, or >= 2 pages, or a repeated send; distinct by hash of the scenario";
 pub const ASSUMPTIONS: &[&str] = &[
     "the sign under the controller is flipdot's own VirtualSign (C13 covers its conformance to the sign-side state machine)",
     "a panic during the *prior traffic* phase belongs to C12 and discards the scenario (counted); configure_if_needed on a sign that reports itself ready with the same type legitimately does nothing, so 'no pages' is then not asserted",
@@ -51,6 +51,10 @@ pub struct Scenario {
     pub rounds: Vec<Round>,
     /// shut down, reconfigure as this other type and send these pages
     pub epilogue: Option<(u8, Vec<PageSpec>)>,
+    /// a second controller drives the bystander sign (configure, then one send after every round of the main sign);
+    /// both signs must end up with exactly their own pages
+    #[serde(default)]
+    pub bystander_active: bool,
 }
 
 fn make_page(spec: &PageSpec, w: u32, h: u32) -> Page<'static> {
@@ -219,6 +223,30 @@ pub fn check_scenario(c: &Scenario, st: &mut Stats) -> Result<(), String> {
         }
     }
 
+    // ---- optional second controller on the same bus ----
+    let by_idx = c.bystander.and_then(|(a, _)| if a != c.addr { Some(if idx == 0 { 1 } else { 0 }) } else { None });
+    let by_type = TYPES[(c.sign_type as usize + 5) % 11];
+    let by_sign = match (c.bystander_active, c.bystander, by_idx) {
+        (true, Some((a, _)), Some(_)) => Some(Sign::new(bus.clone(), Address(a), by_type.0)),
+        _ => None,
+    };
+    if let (Some(bs), Some(bi)) = (&by_sign, by_idx) {
+        let before_main = observe();
+        catch(|| bs.configure())
+            .map_err(|p| format!("second controller: configure panicked: {p}"))?
+            .map_err(|e| format!("second controller: configure of the other sign failed: {e}"))?;
+        st.eval();
+        let b = bus.borrow();
+        if b.sign(bi).state() != State::ConfigReceived || b.sign(bi).sign_type() != Some(by_type.0) || !b.sign(bi).pages().is_empty() {
+            return Err(format!("second controller: after configure the other sign is {:?} / {:?} / {} pages", b.sign(bi).state(), b.sign(bi).sign_type(), b.sign(bi).pages().len()));
+        }
+        drop(b);
+        if observe() != before_main {
+            return Err("configuring the other sign through its own controller changed this sign".into());
+        }
+        st.class("second-controller-on-the-bus");
+    }
+
     // ---- rounds of send / show / load ----
     let send_and_check = |specs: &[PageSpec], w: u32, h: u32, sign: &Sign, what: &str| -> Result<(), String> {
         let list: Vec<Page<'static>> = specs.iter().map(|p| make_page(p, w, h)).collect();
@@ -274,6 +302,23 @@ pub fn check_scenario(c: &Scenario, st: &mut Stats) -> Result<(), String> {
                 if after.2 != before.2 {
                     return Err(format!("round {ri} call {ci}: {name} changed the stored pages"));
                 }
+            }
+        }
+        if let (Some(bs), Some(bi)) = (&by_sign, by_idx) {
+            let before_main = observe();
+            let page = make_page(&PageSpec::Bits(ri as u8, 99 + ri as u64), by_type.3, by_type.4);
+            let list = [page];
+            catch(|| bs.send_pages(&list))
+                .map_err(|p| format!("second controller: send_pages panicked: {p}"))?
+                .map_err(|e| format!("second controller: send_pages to the other sign failed in round {ri}: {e}"))?;
+            st.eval();
+            let b = bus.borrow();
+            if b.sign(bi).pages() != &list[..] {
+                return Err(format!("second controller: the other sign does not hold the page sent to it in round {ri}"));
+            }
+            drop(b);
+            if observe() != before_main {
+                return Err(format!("round {ri}: a transfer to the other sign through its own controller changed this sign"));
             }
         }
     }
@@ -337,15 +382,17 @@ fn scenario_strategy(max_pages: usize) -> impl Strategy<Value = Scenario> {
         proptest::collection::vec(round_strategy(max_pages), 1..=3),
         prop_oneof![3 => Just(None), 1 => (0u8..11, proptest::collection::vec(page_spec_strategy(), 0..=2)).prop_map(Some)],
         prop_oneof![3 => Just(0usize), 2 => 1usize..40],
+        any::<bool>(),
     )
-        .prop_flat_map(|((sign_type, automatic, addr), bystander, directed, cin, rounds, epilogue, n_prior)| {
+        .prop_flat_map(|((sign_type, automatic, addr), bystander, directed, cin, rounds, epilogue, n_prior, by_active)| {
             let others = vec![addr.wrapping_add(1), bystander.map(|b: (u16, bool)| b.0).unwrap_or(addr ^ 0x0100)];
             (
-                Just((sign_type, automatic, addr, bystander, directed, cin, rounds, epilogue)),
+                Just((sign_type, automatic, addr, bystander, directed, cin, rounds, epilogue, by_active)),
                 proptest::collection::vec(hop_for_c08(addr, others), n_prior..=n_prior),
             )
         })
-        .prop_map(|((sign_type, automatic, addr, bystander, directed, cin, rounds, epilogue), prior)| Scenario {
+        .prop_map(|((sign_type, automatic, addr, bystander, directed, cin, rounds, epilogue, bystander_active), prior)| Scenario {
+            bystander_active,
             sign_type,
             automatic,
             addr,
@@ -379,6 +426,7 @@ pub fn run(ctx: &Ctx) {
                         Round { pages: if variant % 3 == 0 { vec![] } else { vec![PageSpec::Full(9)] }, calls: vec![false, true] },
                     ],
                     epilogue: if variant == 5 { Some(((sign_type + 3) % 11, vec![PageSpec::Bits(2, 5)])) } else { None },
+                    bystander_active: variant % 4 == 1,
                 };
                 check_scenario(&c, st).map_err(|m| (serde_json::to_value(&c).unwrap(), m))?;
             }
